@@ -30,3 +30,18 @@ Print Assumptions C10_decode_encode_dirent.
 Theorem C10_decode_encode_fh : forall i g, i < 2^64 -> g < 2^64 -> parse_handle (encode_fh i g) = Some (i, g).
 Proof. exact decode_encode_fh. Qed.
 Print Assumptions C10_decode_encode_fh.
+
+(* The name cache the running server answers LOOKUP from is what a restarted server would read from the slots:
+   DM (Model/DirModel.v: mkDcache, LookupName, AddName, RemName of dir/dir.go + dir/dcache.go), for every history
+   of directory operations starting from a freshly made directory — cache present or dropped in between. *)
+From V Require Model.DirModel Proofs.DirProofs.
+Theorem C10_name_cache_coherent : forall self parent os,
+  DirProofs.coh (DirProofs.druns (DirProofs.dir_init self parent) os).
+Proof. exact (fun self parent os => DirProofs.druns_coh os _ (DirProofs.dir_init_coh self parent)). Qed.
+Print Assumptions C10_name_cache_coherent.
+
+Theorem C10_lookup_answers_from_the_slots : forall st n st' r, DirProofs.coh st -> DirModel.lookup_name st n = (st', r) ->
+  DirProofs.coh st' /\ DirModel.d_slots st' = DirModel.d_slots st /\
+  (forall i k, r = Some (i, k) <-> DirProofs.at_ (DirModel.d_slots st) k (n, i)).
+Proof. exact DirProofs.lookup_name_spec. Qed.
+Print Assumptions C10_lookup_answers_from_the_slots.
